@@ -156,6 +156,14 @@ def load_uses_resolved_keys(ctx: Ctx, rule: str) -> int:
                 if any(isinstance(x, ast.Call) and isinstance(x.func, ast.Attribute) and x.func.attr == "fetch_paths" for e in exprs for x in ast.walk(e)):
                     fields.append(k.arg)
     reads = [x for x in load.own_nodes() if isinstance(x, ast.Attribute) and x.attr in fields and isinstance(x.ctx, ast.Load)]
+    if not reads:
+        # ... or a method of the context record that load calls consults it (`_eval_ctx.resolved_key(path_)`)
+        for c_ in load.own_nodes():
+            if isinstance(c_, ast.Call):
+                for g_ in prog.callees(load, c_, ctx._types)[0]:
+                    if g_.module.name.startswith("dds") and g_.cls is not None and g_.cls.qname.endswith("EvalContext"):
+                        if any(isinstance(x, ast.Attribute) and x.attr in fields and isinstance(x.ctx, ast.Load) for x in g_.own_nodes()):
+                            reads.append(c_)
     desc = "load() inside an evaluation uses the key that the evaluation resolved for the path when it started"
     if fields and reads:
         rep.ok(rule, load.qname, desc + f" (context field `{fields[0]}`)", load.loc(reads[0]))
@@ -474,17 +482,27 @@ def run(ctx: Ctx) -> None:
     if fetches and fetches[0].args:
         sl = ctx.slicer(follow_calls=False).slice(load, fetches[0].args[0])
         it = sl.find(lambda f_, n_: isinstance(n_, ast.Attribute) and n_.attr == _pmf9)
+        at4 = it.node if it is not None else None
+        if it is None:
+            # the look-up may be a method of the context record (`_eval_ctx.resolved_key(path_)`): the guard is then looked for around the call in load
+            sl_ = ctx.slicer(follow_calls=True).slice(load, fetches[0].args[0])
+            it_ = sl_.find(lambda f_, n_: isinstance(n_, ast.Attribute) and n_.attr == _pmf9 and f_ is not load)
+            if it_ is not None:
+                for c_ in load.own_nodes():
+                    if isinstance(c_, ast.Call) and it_.func in prog.callees(load, c_, ctx._types)[0]:
+                        it, at4 = it_, c_
+                        break
         if it is not None:
             # guarded by `ctx is not None`
             guard = False
-            cur = it.node
+            cur = at4
             while cur in load.module.parent:
                 cur = load.module.parent[cur]
                 if isinstance(cur, ast.If) and ("is not None" in unparse(cur.test) or unparse(cur.test).startswith(ctx_global_name(ctx))):
                     guard = True
                 if isinstance(cur, ast.IfExp):
                     guard = True
-            if not guard and isinstance(it.node, ast.Attribute):
+            if not guard and isinstance(it.node, ast.Attribute) and at4 is it.node:
                 # the early-exit form (`if ctx is None: return None` before the read, possibly in an expanded helper): the read is unreachable when the receiver is None
                 from ..propdom import excluding_branches as _exb4
                 recv = unparse(it.node.value)
@@ -868,6 +886,13 @@ def load_prefers_own_paths(ctx: Ctx, rule: str) -> int:
     if load is None:
         raise AnchorError("dds._api.load not found")
     pmf = path_map_field(ctx)
+    if not any(isinstance(x, ast.Attribute) and x.attr == pmf and isinstance(x.ctx, ast.Load) for x in load.own_nodes()):
+        # the look-ups may be a method of the context record that load calls (`_eval_ctx.resolved_key(path_)`): the order is decided there
+        for c_ in load.own_nodes():
+            if isinstance(c_, ast.Call):
+                for g_ in prog.callees(load, c_, ctx._types)[0]:
+                    if g_.module.name.startswith("dds") and g_.cls is not None and any(isinstance(x, ast.Attribute) and x.attr == pmf and isinstance(x.ctx, ast.Load) for x in g_.own_nodes()):
+                        load = g_
     cfg = cfg_of(load)
     own = [x for x in load.own_nodes() if isinstance(x, ast.Attribute) and x.attr == pmf and isinstance(x.ctx, ast.Load)]
     from .roles import _record_fields
